@@ -47,7 +47,9 @@ impl<V: Clone + Debug + Hash + Eq + Send + Sync + 'static> Model for SeqModel<V>
     }
     fn next_state(&self, last: &Self::State, action: usize) -> Option<Self::State> {
         self.transitions.fetch_add(1, std::sync::atomic::Ordering::Relaxed);
+        crate::core::QUIET_PANICS.with(|q| q.set(true));
         let r = catch_unwind(AssertUnwindSafe(|| (self.step)(&last.v, action)));
+        crate::core::QUIET_PANICS.with(|q| q.set(false));
         let r = match r {
             Ok(r) => r,
             Err(p) => {
@@ -145,6 +147,6 @@ pub fn run_seq<V: Clone + Debug + Hash + Eq + Send + Sync + 'static>(
     viol.sort();
     viol.dedup();
     for (k, (site, msg)) in viol.into_iter().enumerate() {
-        ctx.add_violation(&format!("{name}/{site}"), k as u64, msg);
+        ctx.add_violation_in(name, &format!("{name}/{site}"), k as u64, msg);
     }
 }
